@@ -1,6 +1,6 @@
 (** Properties/C04.v — units form a commutative group with a canonical representation.
     Only statements, each closed by [exact] of a lemma proved elsewhere. *)
-From PintV Require Import Model.UC Proofs.UCProofs.
+From PintV Require Import Model.UC Model.Pi Proofs.UCProofs Proofs.PiProofs.
 
 Theorem C04_mul_comm a b : wf a → wf b → uc_mul a b = uc_mul b a.
 Proof. exact (uc_mul_comm a b). Qed.
@@ -59,6 +59,24 @@ Qed.
 (** the defect repaired by the fix: commit (F20) — the old power kept [{m: 0}] *)
 Theorem C04_pow_keepzero_refuted : ∃ a, wf a ∧ uc_pow_keepzero a 0 ≠ ∅ ∧ ¬ wf (uc_pow_keepzero a 0).
 Proof. exact uc_pow_keepzero_refuted. Qed.
+(** Buckingham pi: every exponent vector returned by [pi_theorem] (and by the echelon step before
+    pint's cosmetic rescaling) has one entry per input quantity and is a DIMENSIONLESS monomial:
+    Σ_i v_i · dims(quantity_i) = 0, for every rectangular dimension matrix (no size bound).
+    PARTIAL w.r.t. the property: that the vectors form a BASIS (independent, n − rank of them)
+    is checked per instance by the correspondence harness against an independent rank
+    computation, not proved. *)
+Theorem C04_pi_dimensionless_partial cols A v :
+  rect cols A → v ∈ pi_theorem A cols → length v = length A ∧ lincomb cols v A = repeat 0%Qc cols.
+Proof. exact (pi_theorem_dimensionless cols A v). Qed.
+Theorem C04_pi_echelon_dimensionless_partial cols A v :
+  rect cols A → v ∈ pi_raw A cols → length v = length A ∧ lincomb cols v A = repeat 0%Qc cols.
+Proof. exact (pi_raw_dimensionless cols A v). Qed.
+(** pendulum: period T, length L, mass M, gravity g over [time; length; mass] gives T²·g/L *)
+Example C04_pi_pendulum :
+  let A := [[mkq 1 1; mkq 0 1; mkq 0 1]; [mkq 0 1; mkq 1 1; mkq 0 1]; [mkq 0 1; mkq 0 1; mkq 1 1];
+            [mkq (-2) 1; mkq 1 1; mkq 0 1]] in
+  rect 3 A ∧ length (pi_theorem A 3) = 1%nat.
+Proof. split; [repeat constructor | vm_compute; reflexivity]. Qed.
 (** non-vacuity: hypotheses are met by a concrete non-trivial container *)
 Example C04_nonvacuous : wf (mkuc [("meter", mkq 1 1); ("second", mkq (-2) 1)])
   ∧ uc_pow (mkuc [("meter", mkq 1 1); ("second", mkq (-2) 1)]) (mkq 1 2)
